@@ -638,6 +638,65 @@ pub fn run(tier: Tier) -> Report {
         }
     });
     rep.add_states(dec_cases.len() as u64);
+    // pairs of consecutive headers: one field varied in the reference picture x one field varied in
+    // the following picture (I, P or D), all field pairs over small value sets, same picture size
+    // signalled in every form; both pictures decoded, the second must report its own header
+    {
+        type Setter = Box<dyn Fn(&mut SHdr) + Send + Sync>;
+        let mut setters: Vec<(String, Setter)> = vec![];
+        for v in [0u8, 1] {
+            setters.push((format!("version={v}"), Box::new(move |h: &mut SHdr| h.version = v)));
+        }
+        for v in [0u8, 1, 128, 255] {
+            setters.push((format!("tr={v}"), Box::new(move |h: &mut SHdr| h.tr = v)));
+        }
+        for (n, f) in [("size code 4", SSize::Code(4)), ("8-bit size", SSize::Custom8(128, 96)), ("16-bit size", SSize::Custom16(128, 96))] {
+            setters.push((n.to_string(), Box::new(move |h: &mut SHdr| h.size = f.clone())));
+        }
+        for v in [false, true] {
+            setters.push((format!("deblock={v}"), Box::new(move |h: &mut SHdr| h.deblock = v)));
+        }
+        for v in [1u8, 16, 31] {
+            setters.push((format!("q={v}"), Box::new(move |h: &mut SHdr| h.q = v)));
+        }
+        for v in [vec![], vec![7u8], vec![1, 2, 3]] {
+            setters.push((format!("pei={v:?}"), Box::new(move |h: &mut SHdr| h.pei = v.clone())));
+        }
+        let n = setters.len();
+        let work: Vec<(usize, usize, u8)> = (0..n).flat_map(|a| (0..n).flat_map(move |b| [0u8, 1, 2].into_iter().map(move |pt| (a, b, pt)))).collect();
+        work.par_iter().for_each(|&(a, b, pt)| {
+            let mut ha = SHdr { version: 0, tr: 9, size: SSize::Code(4), ptype: 0, deblock: false, q: 6, pei: vec![] };
+            (setters[a].1)(&mut ha);
+            let mut hb = SHdr { version: 0, tr: 10, size: SSize::Code(4), ptype: pt, deblock: false, q: 6, pei: vec![] };
+            (setters[b].1)(&mut hb);
+            let mut d = Dec::new(1);
+            let mut st = crate::refdec::CmpStats::default();
+            let pa = super::inter::noise_intra(Hdr::S(ha.clone()), 3);
+            let mbs_b: Vec<Mb> = (0..48).map(|i| if pt == 0 || i % 5 == 1 { Mb::intra_flat(60 + i as u8) } else if i % 5 == 3 { Mb::NotCoded } else { Mb::inter(((i % 7) as i8 - 3, (i % 3) as i8 - 1)) }).collect();
+            let pb = Pic { hdr: Hdr::S(hb.clone()), mbs: mbs_b };
+            rep.add_transitions(2);
+            for (k, p) in [&pa, &pb].into_iter().enumerate() {
+                match d.step(p, "C06", &mut st) {
+                    Err(f) => {
+                        rep.violation(&f.sig, format!("header pair [{}] then [{}] (type {pt}), picture {k}: {}", setters[a].0, setters[b].0, f.what), d.replay("header pair"));
+                        return;
+                    }
+                    Ok(None) => {
+                        rep.violation("C06/header-pair-rejected", format!("header pair [{}] then [{}] (type {pt}): picture {k} rejected", setters[a].0, setters[b].0), d.replay("header pair"));
+                        return;
+                    }
+                    Ok(Some(_)) => {}
+                }
+            }
+            let s = last_snap(&d.st).unwrap();
+            let want_type = ["IFrame", "PFrame", "DisposablePFrame"][pt as usize];
+            if s.tr != hb.tr as u16 || s.q != hb.q || s.options != (if hb.deblock { O_SORENSON_DEBLOCK } else { 0 }) || s.ptype != want_type || s.version != Some(hb.version) || s.dims != Some((128, 96)) {
+                rep.violation("C06/decoded-picture-header-after-another", format!("header pair [{}] then [{}] (type {pt}): the second picture reports tr={} q={} options={:#x} type={} version={:?} size={:?}", setters[a].0, setters[b].0, s.tr, s.q, s.options, s.ptype, s.version, s.dims), d.replay("header pair"));
+            }
+        });
+        rep.add_states(work.len() as u64);
+        rep.extra("header_pairs_decoded", json!(work.len()));
+    }
     // standard mode: inert header flags, CPM/PSBI, PEI and both header kinds on decoded pictures
     let mut std_cases: Vec<StdHdr> = vec![];
     for flags in 0..8u8 {
